@@ -33,10 +33,18 @@ CLAIMED = {
    text="TLC checks for every legal signature of up to 4 (thorough: 5) parameters and every call shape that the transcribed binder selected by the matrix converts each argument with the unmarshaller of the parameter Python binds it to (and shows the pinned table violating this). Each emitted (signature, call) is then materialised as a real function / method / callable instance / class / factory closure whose parameters are annotated with distinct Enum classes, called through bind() and wrap(), and TLC validates every observation (landing parameter, converting class, TypeError on rejected calls, wrap metadata) against BindRef; BindRef's acceptance is audited against real Python calls.",
    ref="DESIGN.md section 4 C10",
    note="Trusted: TLC; the Enum-per-parameter trick identifying the converter; quick replays <=3-parameter signatures (unannotated variants <=2), thorough adds all 4-parameter signatures."),
+ "C20": dict(
+   engine="Future",
+   technique="TLA+ spec Future.tla (Sem + five properties vs transcribed NodeTransformer), exhaustive TLC over expression ASTs; every emitted AST unparsed, run through the real future.transform twice, parsed back and validated by TLC trace spec Future_Trace.tla (plus Python eval structure)",
+   level="model_checking",
+   text="TLC enumerates every expression AST of the annotation grammar to the depth bound and checks that the transcribed transformer preserves Sem, leaves no PEP 604 union, is a fixpoint, is the identity when nothing is to do and uses the documented typing forms. Each emitted AST is unparsed, transformed by the real code, parsed back, and TLC evaluates the same five properties on (input AST, output AST, second output AST); both strings are also evaluated in Python and their origin/args structure compared.",
+   ref="DESIGN.md section 4 C20",
+   note="Trusted: TLC; Python's ast.parse/unparse (round trip audited on the emitted universe); Sem as the definition of 'same structure'. Depth 2 over 5 leaves / depth 1 over 14 leaves exhaustively (thorough: depth 2 full in the model), random |-chains beyond."),
 }
 NOT_BUILT = "check not built yet (build in progress; see DESIGN.md section 7 build order)"
 
 ENGINES = {
+ "Future": dict(path="spec/Future.tla", kind="TLA+ spec + TLC (exhaustive, case emission, trace validation) + harness/drivers/c20.py"),
  "Binding": dict(path="spec/Binding.tla", kind="TLA+ spec + TLC (exhaustive, table synthesis Binding_Synth.tla, case emission, trace validation) + harness/drivers/c10.py"),
  "Union": dict(path="spec/Union.tla", kind="TLA+ spec + TLC (exhaustive, trace validation) + harness/drivers/c08.py"),
  "Iter": dict(path="spec/Iter.tla", kind="TLA+ spec + TLC (exhaustive, case emission, trace validation) + harness/drivers/c18.py"),
